@@ -11,6 +11,7 @@ CONSTANTS
   MaxEx = 1000000
   ProbeNs <- ProbesDeep
   ProbeUids <- UidsDeep
+  MaxOld = 0
 VIEW viewU
 INVARIANTS SentLeavesPool FieldCount PlaceholderType ReqFits ReqFitsConst NoShrink PoolCap StaysFull RespFits RespCount ProbeAnswered FreshCookiesOpen
 PROPERTIES SingleUse Answered Fresh
